@@ -22,7 +22,9 @@ NOTES = ['every shape R x C <= 6x6 (1xN, Nx1, 3x4 and 4x3, primes included), eve
          'neighbourhood type and/or radius on the same or a one-cell-changed grid',
          'compared in Coq per call: the returned array (values and shape) of each mode against the model of that mode; '
          'oracle in Python: memoized array == unmemoized array, both from the implementation']
-ASSUMPTIONS = ['rules are pure and read only the unmasked cells (Lin2 and the affine Aff2 of harness/twins.py; about a '
+ASSUMPTIONS = ['memoize=np.True_ / np.False_ are modelled as PBool (the code converts np.bool_ at the top of evolve2d, fix '
+               '751b55b); np.str_ and str subclasses equal to "recursive" as PStr "recursive"; bytes and ints are unsupported',
+               'rules are pure and read only the unmasked cells (Lin2 and the affine Aff2 of harness/twins.py; about a '
                'third of the pure rules are affine with b != 0, so that the all-zero neighbourhood does not map to 0); memoized modes with rules that '
                'depend on c or t are outside the property',
                'rule results and initial states are representable in the dtype of the automaton (store = identity)',
@@ -37,24 +39,42 @@ OPTIONS = {
     'rec_lit': (lambda: "recursive", '(PStr "recursive")'),
     'rec_join': (lambda: ''.join(['recur', 'sive']), '(PStr "recursive")'),          # equal, not identical
     'rec_bytes': (lambda: str(b'recursive', 'ascii'), '(PStr "recursive")'),         # equal, not identical
+    # value-equal but not the literal / not the bool singletons (fix 751b55b converts np.bool_ at the top of evolve2d;
+    # np.str_ and str subclasses compare equal to "recursive"): selected by VALUE
+    'np_true': (lambda: np.True_, '(PBool true)'),
+    'np_false': (lambda: np.False_, '(PBool false)'),
+    'np_cmp_true': (lambda: (np.arange(3) >= 0).all(), '(PBool true)'),                # the result of an array comparison
+    'np_str': (lambda: np.str_('recursive'), '(PStr "recursive")'),
+    'str_sub': (lambda: _StrSub('recursive'), '(PStr "recursive")'),
     'rec_upper': (lambda: 'Recursive', '(PStr "Recursive")'),                        # unsupported
+    'rec_bytes_obj': (lambda: b'recursive', '(PStr "b-recursive")'),                 # bytes != str: unsupported
+    'np_int1': (lambda: np.int64(1), '(PInt 1)'),                                    # not a boolean: unsupported
     'str_true': (lambda: 'True', '(PStr "True")'),                                   # unsupported
     'int1': (lambda: 1, '(PInt 1)'),                                                 # `1 is True` is False
     'int0': (lambda: 0, '(PInt 0)'),
     'none': (lambda: None, 'PNone'),
 }
 MODES3 = ['false', 'true', 'rec_lit']
-MEMOIZED = ('true', 'rec_lit', 'rec_join', 'rec_bytes')
+MEMOIZED = ('true', 'rec_lit', 'rec_join', 'rec_bytes')                    # what the generators of sequences draw from
+MEMOIZED_ALL = MEMOIZED + ('np_true', 'np_cmp_true', 'np_str', 'str_sub')  # every spelling that selects a memoized mode
+
+
+class _StrSub(str):
+    pass
+
 STATS = {'memo_calls': 0, 'memo_rule_entries': 0, 'memo_cells': 0}
 
 
 class Counting:
-    def __init__(self, f):
-        self.f, self.n = f, 0
+    """counts the entries of the rule; `ret` names a NumPy scalar type the result is converted to before it is returned
+    (np.int64(v) instead of the Python int v: NumPy casts the two differently on assignment)"""
+    def __init__(self, f, ret=None):
+        self.f, self.n, self.ret = f, 0, ret
 
     def __call__(self, n, c, t):
         self.n += 1
-        return self.f(n, c, t)
+        v = self.f(n, c, t)
+        return getattr(np, self.ret)(v) if self.ret else v
 
 
 def _grid(rng, R, C, style, k):
@@ -225,6 +245,62 @@ def generate(rng, tier):
                 g2 = _grid(rng, R, C, rng.choice(STYLES), k)
                 calls.append(_call(R, C, r, ty, [g, g2], _lin(rng, r, k), rng.choice(MODES3 + ['rec_join']), _ts(rng)))
         yield {'kind': 'sequence', 'calls': calls}
+    # -- value space: what reaches the byte keys and the dtype casts.  Negative states and weights, large magnitudes
+    #    (999999 = NumPy's integer fill value of masked arrays, 2**40), int64 / uint64 states above 2**53 (not
+    #    representable in a float64 scratch array), bool and float64 automata with integer-valued states, rules that
+    #    return NumPy scalars.  Results are always representable in the automaton's dtype.
+    n_val = 25 if tier == 'quick' else 250
+    for i in range(n_val):
+        for kind in ('negative', 'large', 'above2^53', 'bool', 'float64', 'npscalar'):
+            R, C = rng.choice([(1, 1), (2, 3), (3, 3), (3, 4), (4, 4), (5, 3), (6, 6), (1, 5), (4, 1)])
+            r = rng.randint(0, min(R, C, 2))
+            ty = rng.choice(['moore', 'vn'])
+            w = (2 * r + 1) ** 2
+            ret = None
+            if kind == 'negative':
+                dtype = rng.choice(['int64', 'int32', 'int8'])
+                vals = [-3, -2, -1, 0, 0, 1, 2]
+                m = rng.choice([2, 3, 5])
+                rule = {'fam': rng.choice(['lin', 'aff']), 'ws': [rng.randint(-2, 2) for _ in range(w)], 'm': m}
+            elif kind == 'large':
+                dtype = 'int64'
+                vals = [0, 0, 1, 999999, 2 ** 40, -2 ** 40, -999999]
+                rule = {'fam': 'aff', 'ws': [rng.randint(0, 2) for _ in range(w)], 'm': 2 ** 62}
+            elif kind == 'above2^53':
+                dtype = rng.choice(['int64', 'uint64'])
+                vals = [0, 0, 1, 2 ** 53 + 1, 2 ** 60 + 7, 2 ** 61 + 12345] + ([2 ** 63 + 5] if dtype == 'uint64' else [])
+                rule = {'fam': 'aff', 'ws': [rng.randint(0, 2) for _ in range(w)], 'm': 2 ** 62 if dtype == 'int64' else 2 ** 64}
+                rule['ws'][w // 2] = 1                                   # the centre cell always counts
+                ret = rng.choice([None, None, 'uint64' if dtype == 'uint64' else 'int64'])
+            elif kind == 'bool':
+                dtype = 'bool'
+                vals = [0, 1]
+                rule = {'fam': rng.choice(['lin', 'aff']), 'ws': [rng.randint(0, 1) for _ in range(w)], 'm': 2}
+                ret = rng.choice([None, 'bool_', 'int64'])
+            elif kind == 'float64':
+                dtype = 'float64'
+                vals = [0, 0, 1, -1, 2, 999999, -2 ** 40, 2 ** 40]
+                rule = {'fam': 'aff', 'ws': [rng.randint(-2, 2) for _ in range(w)], 'm': rng.choice([3, 2 ** 50])}
+                ret = rng.choice([None, 'float64', 'int64'])
+            else:
+                dtype = rng.choice(['int64', 'int32', 'uint8'])
+                vals = [0, 0, 1, 2]
+                rule = {'fam': rng.choice(['lin', 'aff']), 'ws': [rng.randint(0, 2) for _ in range(w)], 'm': 3}
+                ret = rng.choice(['int64', 'int32', 'uint8', 'int64'])
+            if rule['fam'] == 'aff':
+                rule['b'] = rng.randint(1, min(rule['m'], 1000) - 1)
+            style = rng.choice(['random', 'random', 'rows', 'sparse'])
+            if style == 'random':
+                g = [[rng.choice(vals) for _ in range(C)] for _ in range(R)]
+            elif style == 'rows':
+                a, b = rng.choice(vals), rng.choice(vals)
+                g = [[(a if x % 2 else b) for _ in range(C)] for x in range(R)]
+            else:
+                g = [[0] * C for _ in range(R)]
+                g[rng.randrange(R)][rng.randrange(C)] = rng.choice([v for v in vals if v != 0])
+            ts = {'fixed': rng.choice([2, 3, 4])} if kind == 'above2^53' or rng.random() < 0.7 else {'lt': rng.randint(2, 4)}
+            calls = [dict(_call(R, C, r, ty, [g], rule, m_, ts, dtype), ret=ret) for m_ in MODES3]
+            yield {'kind': 'values/%s' % kind, 'calls': calls}
     # -- random larger shapes (not only powers of two), small radii
     n_rand = 60 if tier == 'quick' else 1200
     for _ in range(n_rand):
@@ -255,7 +331,7 @@ def _grids(out):
 
 def _run_one(cpl, c, memo_value, rule=None):
     ca = np.array(c['hist'], dtype=np.dtype(c['dtype']))
-    rule = rule or Counting(make_rule(c['rule'], dim=2))
+    rule = rule or Counting(make_rule(c['rule'], dim=2), c.get('ret'))
     n0 = rule.n
     nb = 'Moore' if c['ty'] == 'moore' else 'von Neumann'
     res = call_impl(lambda: cpl.evolve2d(ca, timesteps=_timesteps(c['ts']), apply_rule=rule, r=c['r'],
@@ -274,7 +350,7 @@ def run_impl(case):
     for c in case['calls']:
         res, n = _run_one(cpl, c, OPTIONS[c['memo']][0](), shared)
         o = {'res': res, 'entries': n}
-        if c['memo'] in MEMOIZED:
+        if c['memo'] in MEMOIZED_ALL:
             ref, nref = _run_one(cpl, c, False)          # the property's reference: the unmemoized evolution
             o['plain'] = ref
             o['plain_entries'] = nref
@@ -306,7 +382,7 @@ def to_coq(case, obs):
 
 
 def nontrivial(case, obs):
-    return any(c['memo'] in MEMOIZED and o['res'][0] == 'ok' and o['entries'] < o.get('plain_entries', 0)
+    return any(c['memo'] in MEMOIZED_ALL and o['res'][0] == 'ok' and o['entries'] < o.get('plain_entries', 0)
                for c, o in zip(case['calls'], obs))
 
 
@@ -314,7 +390,7 @@ def oracle(case, obs):
     """The property itself on the implementation: a memoized call returns what the unmemoized call returns;
     an option equal to "recursive" / True / False is accepted."""
     for i, (c, o) in enumerate(zip(case['calls'], obs)):
-        if c['memo'] in MEMOIZED:
+        if c['memo'] in MEMOIZED_ALL:
             if o['res'][0] != 'ok':
                 if o['plain'][0] == 'ok':
                     return 'call %d: memoize=%r raised %s where memoize=False returns an array' % (
